@@ -35,7 +35,7 @@ def agents(prefix):
     return "\n\n".join(parts)
 
 blocks = {"ROUND7-TABLE": table("r7"), "ROUND8-TABLE": table("r8"), "ROUND9-TABLE": table("r9"), "ROUND10-TABLE": table("r10"),
-          "ROUND8-AGENTS": agents("h8"), "ROUND9-AGENTS": agents("h9")}
+          "ROUND8-AGENTS": agents("h8"), "ROUND9-AGENTS": agents("h9"), "ROUND10-AGENTS": agents("h10")}
 for name, body in blocks.items():
     new = "<!-- %s -->\n%s\n<!-- /%s -->" % (name, body, name)
     pat = re.compile(r"<!-- %s -->.*?<!-- /%s -->" % (name, name), re.S)
